@@ -77,8 +77,8 @@ def load_doc(docid):
     kind, name = docid.split(':', 1)
     entry = {'id': docid, 'skip': None}
     try:
-        if kind == 'seed':
-            versions, xsd, doc = G.SEEDS[name]
+        if kind in ('seed', 'wild'):
+            versions, xsd, doc = G.SEEDS[name] if kind == 'seed' else G.WILD_CASES[name]
             entry['data'] = doc.encode('utf-8')
             entry['schemas'] = {v: VERSIONS[v](xsd) for v in versions}
             entry['schema_src'] = xsd
@@ -113,7 +113,7 @@ def load_doc(docid):
             except Exception:                             # noqa
                 entry['skip'] = 'corpus file not well-formed'
     except Exception as e:                                # noqa
-        if kind == 'seed':
+        if kind != 'corpus':
             raise
         entry['skip'] = 'corpus file unusable: %s' % type(e).__name__
     entry['base_bad'] = set()
@@ -142,15 +142,25 @@ def all_docids():
 
 # --- judging one document ---------------------------------------------------------------------------
 
+def _render(errors):
+    """Every collected error must be printable: str, repr, reason, path are rendered (part of the call judged)."""
+    for err in errors:
+        str(err), repr(err), err.reason, err.path, err.message
+    return 'errors' if errors else 'noerrors'
+
+
 def _call(api, schema, src):
     if api == 'is_valid':
         return 'valid' if schema.is_valid(src) else 'invalid'
     if api == 'iter_errors':
-        return 'errors' if list(schema.iter_errors(src)) else 'noerrors'
+        return _render(list(schema.iter_errors(src)))
     if api == 'decode_lax':
-        r = schema.decode(src, validation='lax')
-        return 'errors' if r[1] else 'noerrors'
-    schema.decode(src)
+        return _render(schema.decode(src, validation='lax')[1])
+    try:
+        schema.decode(src)
+    except xmlschema.XMLSchemaValidationError as err:
+        _render([err])
+        raise
     return 'data'
 
 
@@ -740,6 +750,9 @@ def _shards(tier, seed):
             step = 40 if tier == 'quick' else PAIR_CHUNK_THOROUGH
             for lo in range(0, n, step):
                 out.append(('pairs', docid, tier, seed, lo, lo + step))
+    for name in G.WILD_ORDER:
+        out.append(('base', 'wild:' + name))
+        out.append(('fault', 'wild:' + name, 0, 100000))
     for cfg in limit_shards(tier):
         if not cfg.get('timeout'):
             out.append(('limit', cfg))
@@ -755,7 +768,9 @@ def run_shard(shard, acc):
         if kind == 'trunc':
             acc.cnt('skipped: ' + entry['skip'])
         return
-    if kind == 'fault':
+    if kind == 'base':
+        run_base(acc, entry)
+    elif kind == 'fault':
         run_faults(acc, entry, shard[2], shard[3])
     elif kind == 'trunc':
         acc.cnt('documents_used_%s' % shard[1].split(':')[0])
@@ -813,6 +828,9 @@ def bounds(tier, seed):
         'limit_settings': sorted({setting_name(c) for c in limit_shards(tier) if 'shape' in c}),
         'limit_shapes': sorted({c['shape'] for c in limit_shards(tier) if 'shape' in c}),
         'collector_phases': GC_PHASES,
+        'wildcard_matrix': '%d cases: element wildcard with an empty namespace set (notNamespace 1 / 2 values in 1.1, '
+                           'namespace="" in 1.0 and 1.1) x strict/lax/skip x required/optional x before/after an element '
+                           'x 2 instances, every single catalogue fault' % len(G.WILD_ORDER),
         'developer_filter': os.environ.get('VERIF_C11_ONLY'),
         'default_depth_ladder': LADDER_QUICK if tier == 'quick' else LADDER_THOROUGH,
     }
